@@ -1,22 +1,14 @@
 (* Model of backend/src/opcode_select.rs: which opcode the backend emits for a binary
    operator given the resolved types of its operands (sema/src/types/resolved_type.rs).
-   Hand-written; the opcode constructors come from Extracted/Opcodes.v (so a renamed or removed
-   OpCode variant breaks the build) and the whole table is compared with the real
-   `select_opcode` on every run (hx_c06 --select).  Definitions only. *)
-From Coq Require Import NArith Bool List.
-From Aelys Require Import Extracted.Opcodes Model.VmArith.
+   Generated from the Rust source (Extracted/OpcodeSelectTables.v, tools/extractors/c06.py):
+   the BinaryOp and ResolvedType constructors, is_integer / is_float, and the five
+   operator -> opcode tables.  Hand-written here: needs_guard / unwrap_uncertain / is_certain
+   (one-line matches) and the decision skeleton of select_opcode; the whole function is compared
+   with the real `select_opcode` on every run (hx_c06 --select).  Definitions only. *)
+From Coq Require Import NArith Bool List String.
+From Aelys Require Import Extracted.Opcodes Extracted.OpcodeSelectTables Extracted.DispatchArms Model.VmArith.
 Import ListNotations.
 
-(* ResolvedType; Function/Array/Vec/Tuple/Range/Struct are irrelevant to selection: ROther *)
-Inductive rtype :=
-| RI8 | RI16 | RI32 | RI64 | RU8 | RU16 | RU32 | RU64 | RF32 | RF64
-| RBool | RString | RNull | ROther | RDynamic
-| RUncertain (inner : rtype).
-
-Definition is_integer (t : rtype) : bool :=
-  match t with RI8 | RI16 | RI32 | RI64 | RU8 | RU16 | RU32 | RU64 => true | _ => false end.
-Definition is_float_ty (t : rtype) : bool :=
-  match t with RF32 | RF64 => true | _ => false end.
 Definition needs_guard (t : rtype) : bool :=
   match t with RUncertain _ => true | _ => false end.
 Definition unwrap_uncertain (t : rtype) : rtype :=
@@ -24,43 +16,6 @@ Definition unwrap_uncertain (t : rtype) : rtype :=
 (* ResolvedType::is_certain *)
 Definition is_certain (t : rtype) : bool :=
   match t with RDynamic | RUncertain _ => false | _ => true end.
-
-(* syntax::ast::BinaryOp *)
-Inductive binop :=
-| OpAdd | OpSub | OpMul | OpDiv | OpMod | OpEq | OpNe | OpLt | OpLe | OpGt | OpGe
-| OpShl | OpShr | OpBitAnd | OpBitOr | OpBitXor.
-
-Definition select_typed_int_opcode (op : binop) : opcode :=
-  match op with
-  | OpAdd => O_AddII | OpSub => O_SubII | OpMul => O_MulII | OpDiv => O_DivII | OpMod => O_ModII
-  | OpLt => O_LtII | OpLe => O_LeII | OpGt => O_GtII | OpGe => O_GeII | OpEq => O_EqII | OpNe => O_NeII
-  | OpShl => O_ShlII | OpShr => O_ShrII | OpBitAnd => O_AndII | OpBitOr => O_OrII | OpBitXor => O_XorII
-  end.
-Definition select_generic_opcode (op : binop) : opcode :=
-  match op with
-  | OpAdd => O_Add | OpSub => O_Sub | OpMul => O_Mul | OpDiv => O_Div | OpMod => O_Mod
-  | OpLt => O_Lt | OpLe => O_Le | OpGt => O_Gt | OpGe => O_Ge | OpEq => O_Eq | OpNe => O_Ne
-  | OpShl => O_Shl | OpShr => O_Shr | OpBitAnd => O_BitAnd | OpBitOr => O_BitOr | OpBitXor => O_BitXor
-  end.
-Definition select_typed_float_opcode (op : binop) : opcode :=
-  match op with
-  | OpAdd => O_AddFF | OpSub => O_SubFF | OpMul => O_MulFF | OpDiv => O_DivFF | OpMod => O_ModFF
-  | OpLt => O_LtFF | OpLe => O_LeFF | OpGt => O_GtFF | OpGe => O_GeFF | OpEq => O_EqFF | OpNe => O_NeFF
-  | o => select_generic_opcode o
-  end.
-(* there are no guarded shift/bitwise opcodes: the generic ones (which check both tags) are used *)
-Definition select_guarded_int_opcode (op : binop) : opcode :=
-  match op with
-  | OpAdd => O_AddIIG | OpSub => O_SubIIG | OpMul => O_MulIIG | OpDiv => O_DivIIG | OpMod => O_ModIIG
-  | OpLt => O_LtIIG | OpLe => O_LeIIG | OpGt => O_GtIIG | OpGe => O_GeIIG | OpEq => O_EqIIG | OpNe => O_NeIIG
-  | o => select_generic_opcode o
-  end.
-Definition select_guarded_float_opcode (op : binop) : opcode :=
-  match op with
-  | OpAdd => O_AddFFG | OpSub => O_SubFFG | OpMul => O_MulFFG | OpDiv => O_DivFFG | OpMod => O_ModFFG
-  | OpLt => O_LtFFG | OpLe => O_LeFFG | OpGt => O_GtFFG | OpGe => O_GeFFG | OpEq => O_EqFFG | OpNe => O_NeFFG
-  | o => select_generic_opcode o
-  end.
 
 Definition select_opcode (op : binop) (l r : rtype) : opcode :=
   let g := needs_guard l || needs_guard r in
@@ -85,16 +40,38 @@ Definition generic_sem (op : binop) : binsem :=
   | OpBitOr => SBit FGen BOr | OpBitXor => SBit FGen BXor
   end.
 
-(* an opcode that reads its operands with the unchecked accessors *)
-Definition is_unchecked_sem (s : binsem) : bool :=
+(* a type-specialised opcode (II / FF forms): before 7e82908 these read their operands unchecked *)
+Definition is_specialised_sem (s : binsem) : bool :=
   match s with
   | SArith FII _ | SArith FFF _ | SCmp FII _ | SCmp FFF _ | SBit FII _ => true
   | _ => false
   end.
-Definition is_unchecked_opcode (o : opcode) : bool :=
-  match binop_sem o with Some s => is_unchecked_sem s | None => false end.
+Definition is_specialised_opcode (o : opcode) : bool :=
+  match binop_sem o with Some s => is_specialised_sem s | None => false end.
 
-Definition all_binops : list binop :=
-  [OpAdd; OpSub; OpMul; OpDiv; OpMod; OpEq; OpNe; OpLt; OpLe; OpGt; OpGe; OpShl; OpShr; OpBitAnd; OpBitOr; OpBitXor].
 Definition base_types : list rtype :=
   [RI8; RI16; RI32; RI64; RU8; RU16; RU32; RU64; RF32; RF64; RBool; RString; RNull; ROther; RDynamic].
+
+(* ------------------------------------------------------------------ dispatch arms (generated)
+   versus the aliases the VM model relies on: where Model/VmArith.v defines one opcode family as
+   another (t_arith_ii := g_arith, gd_arith_ffg := gd_arith_iig, ...) the two opcodes must be
+   handled by the same match arm of the dispatch loop. *)
+Definition model_aliases : list (opcode * opcode) :=
+  [(O_AddII, O_Add); (O_SubII, O_Sub); (O_MulII, O_Mul); (O_DivII, O_Div); (O_ModII, O_Mod);
+   (O_EqII, O_Eq); (O_NeII, O_Ne); (O_LtII, O_Lt); (O_LeII, O_Le); (O_GtII, O_Gt); (O_GeII, O_Ge);
+   (O_ShlII, O_Shl); (O_ShrII, O_Shr); (O_AndII, O_BitAnd); (O_OrII, O_BitOr); (O_XorII, O_BitXor);
+   (O_NotI, O_BitNot);
+   (O_AddFFG, O_AddIIG); (O_SubFFG, O_SubIIG); (O_MulFFG, O_MulIIG); (O_DivFFG, O_DivIIG); (O_ModFFG, O_ModIIG);
+   (O_LtFFG, O_LtIIG); (O_LeFFG, O_LeIIG); (O_GtFFG, O_GtIIG); (O_GeFFG, O_GeIIG); (O_EqFFG, O_EqIIG); (O_NeFFG, O_NeIIG)].
+Definition in_arm (x : N) (arm : list N * list String.string) : bool := existsb (N.eqb x) (fst arm).
+Definition same_arm (x y : N) : bool := existsb (fun arm => in_arm x arm && in_arm y arm) dispatch_arms.
+Definition model_aliases_in_code : bool :=
+  forallb (fun p => same_arm (opcode_num (fst p)) (opcode_num (snd p))) model_aliases.
+(* every modelled opcode has an arm *)
+Definition modelled_opcodes_have_arms : bool :=
+  forallb (fun p => existsb (in_arm (snd p)) dispatch_arms) dispatch_numbers.
+(* no arm of the arithmetic / comparison / bitwise / control-flow dispatch calls an unchecked accessor *)
+Definition is_unchecked_accessor (a : String.string) : bool :=
+  (String.eqb a "as_int_unchecked" || String.eqb a "as_float_unchecked")%string.
+Definition no_unchecked_accessor_in_dispatch : bool :=
+  forallb (fun arm => negb (existsb is_unchecked_accessor (snd arm))) dispatch_arms.
